@@ -1356,13 +1356,19 @@ def split_host_and_port(netloc: str) -> tuple[str, int | None]:
 
     .. versionadded:: 4.1
     """
+    host = netloc
+    port: int | None = None
     match = _netloc_re.match(netloc)
     if match:
-        host = match.group(1)
-        port: int | None = int(match.group(2))
-    else:
-        host = netloc
-        port = None
+        try:
+            port = int(match.group(2))
+        except ValueError:
+            # int() refuses digit strings longer than sys.get_int_max_str_digits().
+            # Such a suffix cannot be a port number; report the netloc as having none
+            # instead of letting the error escape (the netloc may come from a Host header).
+            pass
+        else:
+            host = match.group(1)
     return (host, port)
 
 
